@@ -129,13 +129,17 @@ def validate_catalyse(enzymes, rng, per_enzyme=40):
                 p = rng.randrange(0, ln)
                 s[p:p + len(word)] = list(word)
             s = "".join(s)[: max(ln, 1)]
-            exp = len(real.catalyse(Bio.Seq.Seq(s)))
+            exp = (len(real.catalyse(Bio.Seq.Seq(s))), len(real.search(Bio.Seq.Seq(s))), len(real.compsite.findall(s)))
             sp = Space(5000)
             Space.cur = sp
             try:
-                got = w.catalyse(Seq(SSeq.const(s))).count
-                if isinstance(got, SInt):
-                    got = sp.get_model().eval(got.e, model_completion=True).as_long()
+                got = []
+                for g in (w.catalyse(Seq(SSeq.const(s))).count, w.search(Seq(SSeq.const(s))).count,
+                          w.compsite.findall(SSeq.const(s)).count):
+                    if isinstance(g, SInt):
+                        g = sp.get_model().eval(g.e, model_completion=True).as_long()
+                    got.append(g)
+                got = tuple(got)
             finally:
                 Space.cur = None
             n += 1
